@@ -275,13 +275,28 @@ def load():
 
 
 # ---------------------------------------------------------------------------- Coq output
-def cq_qname(q):
+_NS_IDS = {}
+
+
+def cq_qname(q, ns_ids=None):
+    """Coq term for an expanded name; inside the generated table namespaces are named constants (ns_ids)."""
     ns, local = q
-    return "(QN %s %s)" % ("None" if ns is None else "(Some %s)" % cq_str(ns), cq_str(local))
+    ns_ids = _NS_IDS if ns_ids is None else ns_ids
+    if ns is None:
+        n = "None"
+    elif ns in ns_ids:
+        n = "(Some %s)" % ns_ids[ns]
+    else:
+        n = "(Some %s)" % cq_str(ns)
+    return "(QN %s %s)" % (n, cq_str(local))
 
 
 def _opt_nat(n):
     return "None" if n is None else "(Some %d)" % n
+
+
+def _opt_N(n):
+    return "None" if n is None else "(Some %d%%N)" % n
 
 
 def _pairs(l):
@@ -294,7 +309,7 @@ def ident(name):
 
 def coq_class(r):
     ch = "; ".join("{| ch_tag := %s; ch_member := %s; ch_class := %s; ch_list := %s |}" % (
-        cq_qname(t), cq_str(m), _opt_nat(k), "true" if lst else "false") for t, m, k, lst in r.children)
+        cq_qname(t), cq_str(m), _opt_N(k), "true" if lst else "false") for t, m, k, lst in r.children)
     at = "; ".join("{| at_name := %s; at_member := %s; at_type := %s; at_required := %s |}" % (
         cq_qname(n), cq_str(m), ("AT_simple %s" if t[0] == "simple" else "AT_class %s") % cq_str(t[1]),
         "true" if req else "false") for n, m, t, req in r.attributes)
@@ -310,25 +325,41 @@ def coq_class(r):
         "None" if r.any_attribute is None else "(Some %s)" % _pairs(r.any_attribute), vt, _pairs(r.parse_defaults))
 
 
+def ns_ids(tab):
+    """namespace URI -> name of the Coq constant gen/ClassTables.v defines for it (first-use order)."""
+    nss = {}
+    for r in tab.classes:
+        for q in [r.tag] + [t for t, _m, _k, _l in r.children] + [n for n, _m, _t, _r in r.attributes]:
+            if q[0] is not None and q[0] not in nss:
+                nss[q[0]] = "ns%d" % len(nss)
+    return nss
+
+
 def render(tab):
     out = ["(* GENERATED by harness/classtables.py from the live pysaml2 modules - do not edit. *)",
            "From Coq Require Import String List NArith.",
            "From Verif Require Import Base.Str Base.Xml Base.ClassTable.",
            "Import ListNotations.", "Open Scope string_scope.", ""]
+    _NS_IDS.clear()
+    _NS_IDS.update(ns_ids(tab))
+    for ns, name in _NS_IDS.items():
+        out.append("Definition %s : string := %s." % (name, cq_str(ns)))
+    out.append("")
     idents = set()
     for i, r in enumerate(tab.classes):
         idn = ident(r.name)
         if idn in idents:
             raise TableError("identifier clash %s" % idn)
         idents.add(idn)
-        out.append("Definition %s : nat := %d." % (idn, i))
+        out.append("Definition %s : N := %d%%N." % (idn, i))
     out.append("")
     out.append("Definition live_table : table := [")
     out.append(";\n".join("  (* %d *) %s" % (i, coq_class(r)) for i, r in enumerate(tab.classes)))
     out.append("].")
     out.append("")
-    out.append("Definition live_core : list nat := [%s]." % "; ".join(str(i) for i, r in enumerate(tab.classes) if r.core))
+    out.append("Definition live_core : list N := [%s]%%N." % "; ".join(str(i) for i, r in enumerate(tab.classes) if r.core))
     out.append("")
+    _NS_IDS.clear()
     return "\n".join(out)
 
 
